@@ -379,7 +379,72 @@ def res_check(case):
     return res
 
 
+# ------------------------------------------------------------------ low-level aggregators / norms
+
+
+def agg_strategy(stratum, tier):
+    D, N = stratum["D"], stratum["N"]
+    return st.fixed_dictionaries(
+        dict(
+            D=st.just(D), N=st.just(N), C=st.integers(1, 3), L=gens.st_L(0.2, 50.0),
+            u=gens.st_white(0.3, 3.0), v=gens.st_white(0.3, 3.0, kind="nyqfree"),
+            p=st.sampled_from([1.0, 2.0, 3.0, 0.5]), q=st.sampled_from([None, 1.0, 0.5, 2.0]),
+            order=st.sampled_from([1, 2, 3]),
+        )
+    )  # fmt: skip
+
+
+def agg_check(case):
+    D, N, C, L, p, q = (case[k] for k in ("D", "N", "C", "L", "p", "q"))
+    res = R()
+    res.nontrivial = True
+    res.tag("aggregators", "D%d" % D, "p=%g" % p, "q=%s" % q)
+    key = "C16:aggregators:D%d" % D
+    u = orc.make_state(case["u"], C, D, N)
+    v = orc.make_state(case["v"], C, D, N)
+    qq = 1 / p if q is None else q
+    kw = dict(domain_extent=L, inner_exponent=p)
+    if q is not None:
+        kw["outer_exponent"] = q
+    want = agg(u[0], L, p, qq)
+    ok, got = res.lib("spatial_aggregator", M.spatial_aggregator, jnp.asarray(u[0]), key=key, **kw)
+    if ok:
+        res.claim("spatial_aggregator:definition", abs(float(got) - want), 1e-11 * abs(want) + 1e-300, key=key + ":spatial_aggregator")
+    for mode in ("absolute", "normalized", "symmetric"):
+        dn = [agg((u - v)[c], L, p, qq) for c in range(C)]
+        un = [agg(u[c], L, p, qq) for c in range(C)]
+        vn = [agg(v[c], L, p, qq) for c in range(C)]
+        w = {"absolute": sum(dn), "normalized": sum(dn[c] / vn[c] for c in range(C)), "symmetric": sum(2 * dn[c] / (un[c] + vn[c]) for c in range(C))}[mode]
+        ok, got = res.lib("spatial_norm", M.spatial_norm, jnp.asarray(u), jnp.asarray(v), mode=mode, key=key, **kw)
+        if ok:
+            res.claim("spatial_norm:definition:" + mode, abs(float(got) - w), 1e-11 * abs(w) + 1e-300, key=key + ":spatial_norm")
+    # Fourier aggregator with p = 2 equals the spatial one for any outer exponent (Parseval); derivative orders
+    kw2 = dict(domain_extent=L, inner_exponent=2.0)
+    if q is not None:
+        kw2["outer_exponent"] = q
+    q2 = 0.5 if q is None else q
+    if not near_floor(v):
+        ok, got = res.lib("fourier_aggregator", M.fourier_aggregator, jnp.asarray(v[0]), key=key, **kw2)
+        if ok:
+            w = agg(v[0], L, 2.0, q2)
+            res.claim("fourier_aggregator:parseval", abs(float(got) - w), 1e-10 * abs(w) + 1e-300, key=key + ":fourier_aggregator")
+        o = case["order"]
+        U = orc.rfftn(v[0:1])
+        kap = 2 * math.pi / L * orc.rfft_wavenumbers(D, N)
+        w = sum(agg(orc.irfftn((1j * kap[d]) ** o * U, N)[0], L, 2.0, q2) for d in range(D))
+        ok, got = res.lib("fourier_aggregator:derivative", M.fourier_aggregator, jnp.asarray(v[0]), derivative_order=o, key=key, **kw2)
+        if ok and (N % 2 == 1 or True):
+            # v is Nyquist-free, so the real inverse transform of the differentiated field loses nothing
+            res.claim("fourier_aggregator:derivative_order", abs(float(got) - w), 1e-9 * abs(w) + 1e-300, key=key + ":fourier_derivative")
+        ok, got = res.lib("fourier_norm", M.fourier_norm, jnp.asarray(v), None, mode="absolute", key=key, **kw2)
+        if ok:
+            w = sum(agg(v[c], L, 2.0, q2) for c in range(C))
+            res.claim("fourier_norm:parseval", abs(float(got) - w), 1e-10 * abs(w) + 1e-300, key=key + ":fourier_norm")
+    return res
+
+
 SUBS = [
     Sub("pairs", check, strata=strata, strategy=strategy, n=(8, 30), reps=(2, 3)),
     Sub("resolution", res_check, strata=res_strata, strategy=res_strategy, n=(8, 40), reps=(1, 2)),
+    Sub("aggregators", agg_check, strata=strata, strategy=agg_strategy, n=(8, 40)),
 ]
